@@ -256,4 +256,77 @@ def featcorr(prop, tier, seed, ctx):
     return res
 
 
-EXTRA = {"tables": tables, "stress": stress, "netcorr": netcorr, "featcorr": featcorr}
+def macrocorpus(prop, tier, seed, ctx):
+    """C19: a generated corpus of actor programs compiled against the real macros; what each program must do
+    (compile error / logs Err after tell / logs nothing) is asked of the Lean model, program by program"""
+    import re
+    import macro_gen
+    root = os.path.join(ctx["ROOT"], "macrocorpus")
+    res = {"evidence": {}, "violations": [], "broken": []}
+    text = open(os.path.join(root, "Cargo.toml.in")).read().replace("@REPO@", ctx["REPO"])
+    cur = open(os.path.join(root, "Cargo.toml")).read() if os.path.exists(os.path.join(root, "Cargo.toml")) else None
+    if cur != text:
+        open(os.path.join(root, "Cargo.toml"), "w").write(text)
+    lock_src = os.path.join(ctx["REPO"], "Cargo.lock")
+    if os.path.exists(lock_src) and not os.path.exists(os.path.join(root, "Cargo.lock")):
+        open(os.path.join(root, "Cargo.lock"), "w").write(open(lock_src).read())
+    progs = macro_gen.generate(root, seed, tier == "thorough")
+    rc, out, err = ctx["sh"]([ctx["DRIVER"]], input_text="".join(p["model_line"] + "\n" for p in progs), timeout=600)
+    exp = [l.strip() for l in out.splitlines() if l.strip()]
+    if rc != 0 or len(exp) != len(progs) or any(e not in ("error", "log", "nolog") for e in exp):
+        raise ctx["Infra"](f"driver macro mode failed rc={rc}: {out[-500:]} {err[-500:]}")
+    expect = {p["id"]: e for p, e in zip(progs, exp)}
+    pos, neg = macro_gen.write_sources(root, progs, expect)
+    env = dict(os.environ, CARGO_NET_OFFLINE="true")
+    # library + dependencies first: a failure here is infrastructure (or a macro crate that no longer builds)
+    rc, out, err = ctx["sh"](["cargo", "build", "--offline", "--lib"], cwd=root, timeout=3000, env=env)
+    if rc != 0:
+        raise ctx["Infra"]("cannot build the macro corpus library against the tree under test:\n" + err[-3000:])
+    rc, out, err = ctx["sh"](["cargo", "build", "--offline", "--bins", "--keep-going", "--message-format=short"], cwd=root, timeout=6000, env=env)
+    failed_bins = set(re.findall(r'could not compile `macrocorpus` \(bin "([a-z0-9_]+)"\)', err))
+    def describe(p):
+        return {"program": p["id"], "attribute": p["attr_text"], "return_type": p["ret_text"], "actor": p["actor"], "message": p["msg"], "model": expect[p["id"]], "source": p["src"]}
+    counts = {"programs": len(progs), "must_compile": len(pos), "must_not_compile": len(neg), "by_expectation": {k: exp.count(k) for k in ("error", "log", "nolog")}}
+    # programs that must not compile
+    wrongly_ok = [p for p in neg if f"neg_{p['id']}" not in failed_bins]
+    for p in wrongly_ok[:1]:
+        res["violations"].append(("macro-corpus-failure", f"program {p['id']} ({p['attr_text']} on `-> {p['ret_text']}`) compiles although the decision table makes it a compile error",
+                                  {"failing_input": describe(p), "all": [describe(q) for q in wrongly_ok[:10]]}))
+    # programs that must compile
+    if "pos" in failed_bins:
+        culprits = sorted(set(int(x) for x in re.findall(r"src/bin/\.\./gen/p(\d+)\.rs|src/gen/p(\d+)\.rs", err) for x in x if x))
+        bad = [p for p in pos if p["id"] in culprits]
+        first = bad[0] if bad else None
+        msg = [l for l in err.splitlines() if "error" in l][:6]
+        res["violations"].append(("macro-corpus-failure", (f"program {first['id']} ({first['attr_text']} on `-> {first['ret_text']}`)" if first else "a program") + " does not compile although the decision table says it must",
+                                  {"failing_input": describe(first) if first else None, "all": [describe(q) for q in bad[:10]], "rustc": msg}))
+        counts["ran"] = 0
+    else:
+        rc, out, err2 = ctx["sh"]([os.path.join(root, "target", "debug", "pos")], timeout=1200)
+        if rc != 0:
+            raise ctx["Infra"](f"macro corpus binary failed rc={rc}: {err2[-1500:]}")
+        got = {}
+        for l in out.splitlines():
+            m = re.match(r"p(\d+) (.*)", l)
+            if m:
+                got[int(m.group(1))] = m.group(2)
+        counts["ran"] = len(got)
+        bad = []
+        for p in pos:
+            e = expect[p["id"]]
+            logs = 1 if e == "log" else 0
+            want = f"start_ok=true ask_ok={p['ask_ok']} ask_err={p['ask_err']} logs_ask=0 logs_tell_ok=0 logs_tell_err={logs} calls=4 completed=true"
+            g = got.get(p["id"], "<no output>")
+            ok = g.startswith(want + " text=")
+            if ok and logs == 1 and p["err_text"] and p["err_text"] not in g.split(" text=", 1)[1]:
+                ok = False
+            if not ok:
+                bad.append((p, want, g))
+        for (p, want, g) in bad[:1]:
+            res["violations"].append(("macro-corpus-failure", f"program {p['id']} ({p['attr_text']} on `-> {p['ret_text']}`, {p['actor']} actor, {p['msg']} message) behaves differently from the decision table: expected `{want}`, observed `{g}`",
+                                      {"failing_input": describe(p), "expected": want, "observed": g, "all": [{"program": q["id"], "attribute": q["attr_text"], "return_type": q["ret_text"], "expected": w, "observed": o} for (q, w, o) in bad[:10]]}))
+    res["evidence"] = counts
+    return res
+
+
+EXTRA = {"macrocorpus": macrocorpus, "tables": tables, "stress": stress, "netcorr": netcorr, "featcorr": featcorr}
